@@ -144,6 +144,29 @@ func genMerge(repo string) {
 			fail("check_lsp_symbol.go: resultSorter.Less not found")
 		}
 	}
+	// findMaxSecondProject: the condition under which the project visited replaces the best one so far
+	maxProjectCond := ""
+	{
+		pf, err := parser.ParseFile(fset, filepath.Join(repo, "langserver/check/check_lsp_define.go"), nil, 0)
+		if err != nil {
+			fail("parse check_lsp_define.go: %v", err)
+		}
+		for _, d := range pf.Decls {
+			fd, ok := d.(*ast.FuncDecl)
+			if !ok || fd.Body == nil || fd.Name.Name != "findMaxSecondProject" {
+				continue
+			}
+			ast.Inspect(fd.Body, func(n ast.Node) bool {
+				if is, ok := n.(*ast.IfStmt); ok && maxProjectCond == "" {
+					maxProjectCond = strings.Join(strings.Fields(src(is.Cond)), " ")
+				}
+				return true
+			})
+		}
+		if maxProjectCond == "" {
+			fail("check_lsp_define.go: findMaxSecondProject not found")
+		}
+	}
 	var b strings.Builder
 	b.WriteString("namespace LuaHelper.Gen\n\n/-- the if statements of the candidate loop of JudgeShouldInsertGlobalInfo: condition => action -/\n")
 	b.WriteString("def mergeConds : List String := " + leanStrList(conds) + "\n\n")
@@ -151,6 +174,7 @@ func genMerge(repo string) {
 	b.WriteString("/-- generateAllGlobalMaps: its loops over files and the sort between them -/\ndef globalVisits : List String := " + leanStrList(globalVisits) + "\n\n")
 	b.WriteString("/-- rebuidCreateTypeMap: its loops over files and the sort between them -/\ndef typeVisits : List String := " + leanStrList(typeVisits) + "\n\n")
 	b.WriteString("/-- resultSorter.Less: the comparisons it returns, in source order -/\ndef symbolLess : List String := " + leanStrList(lessKeys) + "\n\n")
+	b.WriteString("/-- findMaxSecondProject: when the visited project replaces the best one so far -/\ndef maxProjectCond : String := " + leanStr(maxProjectCond) + "\n\n")
 	b.WriteString("/-- sortedProjectFiles, generateAllFristGlobalGMaps, handleOtherFileInsertSub: their loops over files and the sort -/\ndef projectVisits : List String := " + leanStrList(projectVisits) + "\n\nend LuaHelper.Gen\n")
 	write("Merge.lean", b.String())
 }
